@@ -32,32 +32,40 @@ static std::string cfgname(const PCfg& p) { return mk(p).str(); }
 // hit exactly these defects are skipped (and counted as known_defect_skipped:<id>) so that the rest of the space is explored and the
 // check can exit 0; run the driver with --strict 1 to disable the list and see them fail.  A case is only skipped when the
 // *defect-tolerant* variant of the reference explains the observed verdict; everything else is still compared strictly.
-struct KnownDefect { const char* id; const char* what; };
+struct KnownDefect { const char* id; const char* slug; const char* what; };  // slug: stable kind "defect:<slug>" of the witness space
 static const KnownDefect KNOWN_DEFECTS[] = {
-    {"KD1-auto-skips-declaration-VCs",
+    {"KD1-auto-skips-declaration-VCs", "val-auto-skips-declaration-constraints",
      "Val_Auto with a DOCTYPE: validity constraints checked while the DTD is scanned (ID attribute default, duplicate element declaration, "
      "duplicate name in mixed content, PE nesting) are only reported when the scheme is Val_Always (DTDScanner tests getValidationScheme()==Val_Always)"},
-    {"KD2-enumerated-value-list-accepted",
+    {"KD2-enumerated-value-list-accepted", "enumerated-attribute-accepts-token-list",
      "a value consisting of several listed tokens ('en1 en2', 'n1 n2') is accepted for an enumeration / NOTATION attribute "
      "(DTDValidator::validateAttrValue treats Notation and Enumeration as multi-valued)"},
-    {"KD3-charref-whitespace-splits-tokens",
+    {"KD3-charref-whitespace-splits-tokens", "charref-whitespace-splits-attribute-tokens",
      "a TAB/LF/CR produced by a character reference inside an IDREFS/ENTITIES/NMTOKENS value is treated as a token separator "
      "(validateAttrValue -> XMLString::collapseWS) although only #x20 separates tokens after normalisation"},
-    {"KD4-duplicate-notation-is-warning", "VC Unique Notation Name: a second <!NOTATION n ...> only yields a warning"},
-    {"KD5-ext-subset-ending-in-PE-reference",
+    {"KD4-duplicate-notation-is-warning", "duplicate-notation-declaration-only-warns", "VC Unique Notation Name: a second <!NOTATION n ...> only yields a warning"},
+    {"KD5-ext-subset-ending-in-PE-reference", "external-subset-ending-in-pe-reference-fatal",
      "an external subset whose last construct is a reference to an internal parameter entity: ReaderMgr::popReader silently pops the exhausted "
      "external-subset reader (ignoring its throw-at-end flag), the DTD scanner runs into the document and reports a fatal error"},
-    {"KD6-standalone-normalisation-trailing-or-inner",
+    {"KD6-standalone-normalisation-trailing-or-inner", "standalone-attribute-normalisation-unreported",
      "standalone='yes' + externally declared tokenized attribute: only leading white space is reported (NoAttNormForStandalone); trailing or "
      "repeated inner spaces change the value as well but go unreported (scanAttValue)"},
-    {"KD7-empty-entity-in-EMPTY-element", "an element declared EMPTY containing a reference to an entity with empty replacement text is accepted"},
+    {"KD7-empty-entity-in-EMPTY-element", "empty-element-accepts-empty-entity-reference", "an element declared EMPTY containing a reference to an entity with empty replacement text is accepted"},
 };
+static const int N_KD = sizeof(KNOWN_DEFECTS) / sizeof(KNOWN_DEFECTS[0]);
 static bool g_strict = false;
+// g_kdFixed[i]: the witness of defect i passed when probed at start-up (probe_defects) => the library no longer has the defect and the
+// tolerance for it is switched off: the cases it used to explain are compared strictly again.
+static bool g_kdFixed[16] = {false};
 // returns true when the case must be skipped as a known defect (and counts it)
 static bool kd_skip(Ctx& c, const std::string& id) {
     if (g_strict || id.empty()) return false;
-    for (auto& k : KNOWN_DEFECTS)
-        if (id == k.id) { c.count(std::string("known_defect_skipped:") + k.id); return true; }
+    for (int i = 0; i < N_KD; i++)
+        if (id == KNOWN_DEFECTS[i].id) {
+            if (g_kdFixed[i]) return false;
+            c.count(std::string("known_defect_skipped:") + KNOWN_DEFECTS[i].id);
+            return true;
+        }
     return false;
 }
 static const char* KD1 = "KD1-auto-skips-declaration-VCs";
@@ -898,6 +906,62 @@ static void run_vc(uint64_t idx, Ctx& c) {
     c.sample("{\"case\":" + jstr(VC[idx].label) + "}");
 }
 
+// ====================================================================================================== space witness
+// Exactly one minimal witness per entry of KNOWN_DEFECTS, executed strictly (no tolerance).  A witness that still fails is reported as a
+// violation of kind "defect:<slug>" (matched by /verif/known_findings.json => one KNOWN-FINDING line per defect); a witness that passes
+// reports nothing.  The same witnesses are probed at the start of every other space: a passing witness switches the tolerance off.
+struct Witness { int kd; const char* doc; const char* dtdPath; const char* dtd; int val; bool expectValid; const char* expected; };
+static const Witness WITNESS[] = {
+    {0, "<?xml version=\"1.0\"?><!DOCTYPE r [<!ELEMENT r ANY><!ELEMENT e ANY><!ELEMENT e EMPTY>]><r><e/></r>", "", "", 2, false,
+     "Val_Auto + DOCTYPE: validity error (VC Unique Element Type Declaration), as reported under Val_Always"},
+    {1, "<?xml version=\"1.0\"?><!DOCTYPE r [<!ELEMENT r EMPTY><!ATTLIST r x (en1|en2) #IMPLIED>]><r x=\"en1 en2\"/>", "", "", 1, false,
+     "validity error (VC Enumeration: the value must match ONE of the Nmtoken tokens)"},
+    {2, "<?xml version=\"1.0\"?><!DOCTYPE r [<!ELEMENT r EMPTY><!ATTLIST r x NMTOKENS #IMPLIED>]><r x=\"a1&#9;b1\"/>", "", "", 1, false,
+     "validity error (VC Name Token: the normalised value a1<TAB>b1 does not match Nmtokens; only #x20 separates tokens)"},
+    {3, "<?xml version=\"1.0\"?><!DOCTYPE r [<!ELEMENT r EMPTY><!NOTATION n1 SYSTEM \"a\"><!NOTATION n1 SYSTEM \"b\">]><r/>", "", "", 1, false,
+     "validity error (VC Unique Notation Name)"},
+    {4, "<?xml version=\"1.0\"?><!DOCTYPE r SYSTEM \"x.dtd\"><r/>", "/v/x.dtd", "<!ENTITY % p \"<!ELEMENT r ANY>\">%p;", 1, true,
+     "valid: no error, no fatal error (well-formed, r declared ANY by the parameter entity)"},
+    {5, "<?xml version=\"1.0\" standalone=\"yes\"?><!DOCTYPE r SYSTEM \"x.dtd\"><r x=\"a1 \"/>", "/v/x.dtd", "<!ELEMENT r EMPTY><!ATTLIST r x NMTOKEN #IMPLIED>", 1, false,
+     "validity error (VC Standalone Document Declaration: normalisation by the external declaration changes the value)"},
+    {6, "<?xml version=\"1.0\"?><!DOCTYPE r [<!ELEMENT r EMPTY><!ENTITY ee \"\">]><r>&ee;</r>", "", "", 1, false,
+     "validity error (EMPTY: no content, not even entity references)"},
+};
+static const int N_WITNESS = sizeof(WITNESS) / sizeof(WITNESS[0]);
+// true when the defect is still present; observed (optional) gets a rendering of what the library reported
+static bool witness_fails(const Witness& w, std::string* observed, std::string* cfgOut) {
+    g_vfs->clear();
+    if (*w.dtdPath) g_vfs->put(w.dtdPath, w.dtd);
+    ParseIO io; io.bytes = w.doc;
+    Config cfg; cfg.scanner = IG; cfg.api = SAX2; cfg.val = w.val;
+    ParseResult r = parse_xerces(cfg, io);
+    if (cfgOut) *cfgOut = cfg.str();
+    if (observed) {
+        *observed = "errors=" + std::to_string(r.errs) + " fatals=" + std::to_string(r.fatals) + " warnings=" + std::to_string(r.warns);
+        if (!r.errors.empty() || !r.exc.empty()) *observed += " : " + errs_of(r);
+    }
+    if (w.expectValid) return !(r.ok() && r.errs == 0);
+    return !(r.ok() && r.errs > 0);
+}
+static void probe_defects() {  // before the workers are forked
+    for (int i = 0; i < N_WITNESS; i++) g_kdFixed[WITNESS[i].kd] = !witness_fails(WITNESS[i], nullptr, nullptr);
+    g_vfs->clear();
+}
+static void run_witness(uint64_t idx, Ctx& c) {
+    const Witness& w = WITNESS[idx];
+    const KnownDefect& k = KNOWN_DEFECTS[w.kd];
+    std::string observed, cfg;
+    bool fails = witness_fails(w, &observed, &cfg);
+    c.count(fails ? "witness_defect_present" : "witness_defect_absent");
+    c.count(std::string(fails ? "present:" : "absent:") + k.slug);
+    if (fails)
+        c.violation(std::string("defect:") + k.slug, "\"id\":" + jstr(k.id) + ",\"document\":" + jstr(w.doc) + ",\"dtd\":" + jstr(*w.dtdPath ? std::string(w.dtdPath) + " = " + w.dtd : "(internal subset)") +
+                                                        ",\"config\":" + jstr(cfg) + ",\"expected\":" + jstr(w.expected) + ",\"observed\":" + jstr(observed) + ",\"what\":" + jstr(k.what));
+    c.sample("{\"defect\":" + jstr(k.slug) + ",\"present\":" + (fails ? "true" : "false") + "}");
+    if (c.verbose) printf("%s [%s] %s\n  dtd: %s %s\n  expected: %s\n  observed: %s\n  => defect %s\n", k.id, cfg.c_str(), w.doc, w.dtdPath, w.dtd, w.expected, observed.c_str(),
+                          fails ? "PRESENT" : "absent");
+}
+
 // ====================================================================================================== main
 int main(int argc, char** argv) {
     Args a(argc, argv);
@@ -909,6 +973,7 @@ int main(int argc, char** argv) {
     g_onoff = a.num("onoff", 1) != 0;
     g_dumpViol = a.str("dump-viol", "");
     g_strict = a.num("strict", 0) != 0;
+    if (space != "witness" && !g_strict && a.num("probe", 1)) probe_defects();
     g_placerotate = a.num("placerotate", 0) != 0;
     if (space == "cm" || space == "place") {
         g_k = (int)a.num("k", 3);
@@ -956,6 +1021,10 @@ int main(int argc, char** argv) {
         R.fn = run_idref;
         R.describe = [](uint64_t i) { std::string l; idref_case(i, l); return "{\"doc\":" + jstr(l) + "}"; };
         R.extra_json = "\"alphabet\":" + std::to_string(idref_per_elem()) + ",\"k\":" + std::to_string(g_maxElems);
+    } else if (space == "witness") {
+        R.total = N_WITNESS;
+        R.fn = run_witness;
+        R.describe = [](uint64_t i) { return "{\"defect\":" + jstr(KNOWN_DEFECTS[WITNESS[i].kd].slug) + ",\"document\":" + jstr(WITNESS[i].doc) + "}"; };
     } else if (space == "vc") {
         init_vc();
         R.total = VC.size();
